@@ -1247,6 +1247,25 @@ class Idioms3(ast.NodeTransformer):
             loop = self._comp_to_append_loop(c.func.value, c.args[0], node)
             if loop is not None:
                 return loop
+        # np.minimum(x, 1, out=x) -> x[x > 1] = 1 (NaN stays NaN either way)
+        if isinstance(c, ast.Call) and norm(c.func) in (
+                "np.minimum", "numpy.minimum", "np.maximum",
+                "numpy.maximum") and len(c.args) == 2 and len(
+                c.keywords) == 1 and c.keywords[0].arg == "out" and \
+                isinstance(c.args[0], ast.Name) and isinstance(
+                    c.keywords[0].value, ast.Name) and \
+                c.keywords[0].value.id == c.args[0].id and (
+                    _closed_number(c.args[1]) is not None):
+            x = c.args[0]
+            op = ast.Gt() if norm(c.func).endswith("minimum") else ast.Lt()
+            new = ast.Assign(targets=[ast.Subscript(
+                value=ast.Name(id=x.id, ctx=ast.Load()),
+                slice=ast.Compare(left=ast.Name(id=x.id, ctx=ast.Load()),
+                                  ops=[op], comparators=[clone(c.args[1])]),
+                ctx=ast.Store())], value=c.args[1])
+            ast.copy_location(new, node)
+            ast.fix_missing_locations(new)
+            return new
         # np.putmask(x, m, 0) / np.place(x, m, 0) /
         # np.copyto(x, 0, where=m) with a scalar literal -> x[m] = 0
         if isinstance(c, ast.Call) and norm(c.func) in (
@@ -1505,9 +1524,11 @@ def literal_iterables(fn):
         in_loop_ = any(isinstance(lp, (ast.For, ast.While)) and any(
             x is st for x in ast.walk(lp)) for lp in ast.walk(fn))
         here = _from_here(fn, st)
+        # (inside a loop: a binding in front of the list in the same pass
+        # is over when the list is built; one that follows it is not)
         rebound = {n.id for n in ast.walk(fn) if isinstance(n, ast.Name)
                    and isinstance(n.ctx, (ast.Store, ast.Del))
-                   and (in_loop_ or id(n) in here)}
+                   and id(n) in here}
         if (item_names - {p_.targets[0].id for p_ in pre}) & rebound:
             continue
         for ld in loads:
